@@ -333,7 +333,25 @@ def loser_status(ctx, svc, snap, reqs, race, order, n):
     resp = race.responses[n]
     if resp.ok:
         return
-    _r, state = sched.serial(svc, snap, reqs, order)
+    # judge the loser against what was committed when IT finished: winners
+    # that ran (or finished) only afterwards do not count
+    ends = {name: i for i, (name, kind, _d) in enumerate(race.points)
+            if kind == 'end'}
+    end_n = ends.get(n, len(race.points))
+    prev = None
+    wrote_before = set()
+    for i, (name, kind, d) in enumerate(race.points[:end_n]):
+        if d is None:
+            continue
+        if kind == 'txn-end' and prev is not None and \
+                sched.noids(d) != sched.noids(prev) and name != n:
+            wrote_before.add(name)
+        prev = d
+    done_before = [w for w in order if ends.get(w, 1 << 30) < end_n]
+    if any(w not in done_before for w in wrote_before if w in order):
+        ctx.stats.count('loser analysis skipped (winner partly committed)')
+        return
+    _r, state = sched.serial(svc, snap, reqs, done_before)
     fixed = corrected(reqs[n], state)
     if fixed['b'] == reqs[n]['b']:
         return      # carried nothing stale
